@@ -1589,7 +1589,7 @@ func main() {
 			r.meta.GoViol = append(r.meta.GoViol, gallina.GoViolation{ID: "corpus-" + cs.Name, Shape: "harness-error", What: err.Error()})
 		}
 	}
-	n := f.Count(40, 800)
+	n := f.Count(36, 800)
 	budget := 1_400_000
 	if f.Tier == "thorough" {
 		budget = 45_000_000
@@ -1612,7 +1612,7 @@ func main() {
 			r.meta.GoViol = append(r.meta.GoViol, gallina.GoViolation{ID: fmt.Sprintf("gen-%d", i), Shape: "harness-error", What: err.Error()})
 		}
 	}
-	nh := f.Count(14, 200)
+	nh := f.Count(10, 200)
 	for i := 0; i < nh && r.bytes < budget; i++ {
 		rg := gen.Fork(f.Seed, 1_000_000+i)
 		hs := genHead(rg)
